@@ -799,3 +799,46 @@ Example ex_fault_qualifier_bounded :
                     [SetSize 0 35 1; Msg None 0 35 true true 0; Msg None 0 35 true true 1; Msg None 0 35 true true 2]) in
   ev_ids (buf_get (s_bufs s) 0 35) = [2] /\ i_declared (s_inc s) = 0.
 Proof. vm_compute. split; reflexivity. Qed.
+
+(* ================================================================== E. catch-up subscriptions, written files *)
+Theorem subscriber_bounded_after_catchup maxq maxfl catch_up b ops : 0 <= maxq -> 0 <= maxfl ->
+  let '(s0, direct) := sub_subscribe catch_up b in
+  let s := fold_left (sub_step maxq maxfl) ops s0 in
+  q_queue s0 = [] /\ q_inflight s0 = 0 /\
+  (catch_up = true -> Permutation direct (all_buffered b) /\ StronglySorted num_le direct) /\
+  Z.of_nat (List.length (q_queue s)) <= maxq /\ 0 <= q_inflight s <= maxfl /\
+  subseq (q_delivered s ++ q_queue s) (q_emitted s).
+Proof.
+  intros Hq Hf. unfold sub_subscribe, catchup.
+  split; [reflexivity|]. split; [reflexivity|]. split.
+  - intros ->. split; [apply sort_perm | apply sort_sorted].
+  - destruct (subscriber_bounded maxq maxfl ops Hq Hf) as (H1 & H2 & _ & H4). unfold sub_run in *. cbv zeta in *.
+    split; [exact H1|]. split; [exact H2 | exact H4].
+Qed.
+
+Theorem filter_reads_back above strip final_bz2 inplace recs :
+  filter_run above strip final_bz2 inplace recs = Some (filter (filter_keep above strip) recs).
+Proof. unfold filter_run, read_back, write_codec, filter_codec_from. destruct final_bz2; reflexivity. Qed.
+
+Theorem logfile_reads_back name_bz2 recs : logfile_written name_bz2 recs = Some recs.
+Proof. unfold logfile_written, read_back, write_codec, logfile_codec_from. destruct name_bz2; reflexivity. Qed.
+
+Lemma filter_keep_above a strip r : fr_header r = false -> strip = false ->
+  filter_keep (Some a) strip r = true <-> a <= fr_lvl r.
+Proof.
+  intros Hh ->. unfold filter_keep, filter_above_drop_cmp, cmpZ. rewrite Hh. cbn [orb andb negb].
+  rewrite andb_true_r. destruct (fr_lvl r <? a) eqn:E; cbn [negb];
+    [apply Z.ltb_lt in E | apply Z.ltb_ge in E]; split; intros; try discriminate; try lia; reflexivity.
+Qed.
+
+(* had the compressor been chosen from the name that is opened, an in-place filter of a .bz2 file would be unreadable *)
+Example ex_opened_name_unreadable :
+  read_back true (write_codec OpenedName true true) [1; 2; 3] = None /\
+  read_back true (write_codec FinalName true true) [1; 2; 3] = Some [1; 2; 3].
+Proof. split; reflexivity. Qed.
+
+Example ex_filter :
+  filter_run (Some 23) true true true
+    [mkFrec true 0 false 0; mkFrec false 20 false 1; mkFrec false 23 false 2; mkFrec false 30 true 3; mkFrec false 40 false 4]
+  = Some [mkFrec true 0 false 0; mkFrec false 23 false 2; mkFrec false 40 false 4].
+Proof. reflexivity. Qed.
